@@ -188,7 +188,11 @@ func (c *Ctx) ctorDefaults(rule, name, instField string, want map[string]*big.Ra
 				}
 			}
 		}
-		if nSet == 0 || nKeep == 0 {
+		if nSet == 0 && !bad {
+			// no path tests the field for zero after the options ran and replaces it: an option may assign the whole struct
+			// (FailoverConfig.Use does), so defaults filled in before the options do not survive
+			r.Bad(rule, name, "default-missing:"+field, c.declPos(name), "no path on which "+field+" is found zero after the options ran and replaced by the documented default", nil)
+		} else if nSet == 0 || nKeep == 0 {
 			r.Unknown(rule, name+":"+field, fmt.Sprintf("vacuous: %d defaulting paths, %d keeping paths", nSet, nKeep))
 		} else if !bad {
 			r.OK(rule, name+":"+field, fmt.Sprintf("default %s applied exactly when zero (%d/%d paths)", def.RatString(), nSet, nKeep))
